@@ -297,7 +297,14 @@ def run(ctx):
             out = fl.Aggregated("o", -3.0, 7.0, agg_op, [fl.Activated(t, d) for t, d in acts])
             for cls in (fl.WeightedAverage, fl.WeightedSum):
                 for type_ in ("Automatic", "TakagiSugeno", "Tsukamoto"):
-                    dz = cls(type_)
+                    how = (i + len(type_)) % 3
+                    if how == 0:
+                        dz = cls(type_)
+                    elif how == 1:
+                        dz = cls(fl.WeightedDefuzzifier.Type[type_])
+                    else:
+                        dz = fl.settings.factory_manager.defuzzifier.construct(cls.__name__)
+                        dz.configure(type_ if type_ != "Automatic" or i % 2 else "")
                     try:
                         base = np.asarray(dz.defuzzify(out), dtype=float)
                     except Exception:
